@@ -113,6 +113,29 @@ CLAIMS.update({
     },
 })
 
+CLAIMS['C12'] = {
+    'text': 'Lean theorems over the L0 model of the wire codec (packet/chunk/param/error-cause marshal and unmarshal, all 17 chunk types, '
+            '11 parameter kinds, 5 cause kinds), CRC uninterpreted: (a) round trip dec(enc p)=p for every packet satisfying an explicit decidable '
+            'well-formedness predicate; (b) locality: a chunk is decoded from its own length bytes, bundling changes nothing (no hypothesis on the '
+            'chunk body); (c) re-encode stability for EVERY accepted byte string except two decoded shapes, which are known findings with witness '
+            'theorems and replayed witnesses (empty HEARTBEAT-ACK; INIT whose last parameter is 4 bytes long); (d) the model\'s type dispatch equals '
+            'the dispatch tables the translator reads off the Go switches; chunkHeader/BE16/BE32/padding lemmas. '
+            'Model tied to the code by differential runs through packet.marshal/unmarshal (byte-for-byte, field-for-field, error class for error class) '
+            'and by round-trip / stability / locality predicates evaluated on the implementation outputs. '
+            'That the association only builds well-formed packets (C12_emitted_wf) is NOT part of this check.',
+    'note': NOTE_COMMON,
+    'technique': 'Lean 4 proof (structural induction over the encoders, shift-invariance of the decoder loops, well-formedness of decoder outputs) '
+                 '+ translator-generated dispatch facts + model/implementation differential replay',
+}
+CLAIMS['C13'] = {
+    'text': 'Packet-level decision logic only: the exact acceptance rule of packet.unmarshal and the emission rule of packet.marshal / '
+            'Association.marshalPacket proved in Lean with the CRC uninterpreted; truth table re-evaluated on the implementation with an independent '
+            'bitwise CRC32c (itself compared with hash/crc32). The association-level parts (send-zero only after the peer advertised the DTLS method, '
+            'rejected packet leaves association state unchanged) are not covered here.',
+    'note': NOTE_COMMON,
+    'technique': 'Lean 4 proof (case analysis of the checksum stage) + model/implementation differential replay',
+}
+
 _PENDING = 'check not built yet in this round (planned, see DESIGN.md §5/§8); not claimed until its theorems and correspondence run'
 NOT_APPLICABLE = {p: _PENDING for p in ['C%02d' % i for i in range(1, 21)] if p not in CLAIMS}
 
